@@ -64,6 +64,10 @@ pub fn all() -> Vec<(&'static str, Blueprint)> {
         ("x29_included_fragment", x29_included_fragment()),
         ("x30_nested_override_cycle", x30_nested_override_cycle()),
         ("x31_unbounded_specialisation", x31_unbounded_specialisation()),
+        ("v24_consume_and_borrow_pairs", v24_consume_and_borrow_pairs()),
+        ("v25_fn_pointer_foreign_return", v25_fn_pointer_foreign_return()),
+        ("x32_error_handler_cycle", x32_error_handler_cycle()),
+        ("x33_multibyte_prefix", x33_multibyte_prefix()),
     ]
 }
 
@@ -671,5 +675,42 @@ pub fn x31_unbounded_specialisation() -> Blueprint {
     bp.import(from![pavex]);
     bp.constructor(bad::unbounded::UB_F);
     bp.route(bad::unbounded::UB_HANDLER);
+    bp
+}
+
+/// Four consume-and-borrow pairs in one handler (several nodes parked in the same ordering pass).
+pub fn v24_consume_and_borrow_pairs() -> Blueprint {
+    let mut bp = Blueprint::new();
+    bp.import(from![pavex, crate::shapes::consume_and_borrow]);
+    bp.route(crate::shapes::consume_and_borrow::CB_HANDLER);
+    bp
+}
+
+/// A function-pointer singleton whose return type is the blueprint's only mention of `simdep`.
+pub fn v25_fn_pointer_foreign_return() -> Blueprint {
+    let mut bp = Blueprint::new();
+    bp.import(from![pavex]);
+    bp.constructor(crate::shapes::fn_pointer_state::FP_FACTORY);
+    bp.route(crate::shapes::fn_pointer_state::FP_HANDLER);
+    bp
+}
+
+/// A transient cycle reachable only through what an error handler injects.
+pub fn x32_error_handler_cycle() -> Blueprint {
+    let mut bp = Blueprint::new();
+    bp.import(from![pavex]);
+    bp.constructor(bad::handler_cycle::HC_A);
+    bp.constructor(bad::handler_cycle::HC_B);
+    bp.error_handler(bad::handler_cycle::HC_ERROR_HANDLER);
+    bp.route(bad::handler_cycle::HC_HANDLER);
+    bp
+}
+
+/// A prefix without a leading slash whose text is made of multi-byte characters: the diagnostic
+/// labels a span of this very line.
+pub fn x33_multibyte_prefix() -> Blueprint {
+    let mut bp = Blueprint::new();
+    bp.import(from![pavex]);
+    bp.prefix("日本語").nest({ let mut bp = Blueprint::new(); bp.route(misc::PING); bp });
     bp
 }
